@@ -142,6 +142,14 @@ Proof.
   apply (proj1 dec_tree_mut); auto.
 Qed.
 
+Lemma compound_tree_deep_roundtrip' v s fs : wf_ctype (CComp v s fs) = true ->
+  dec_compound_tree (enc_compound (to_compound v s fs)) = Ok (CComp v s fs).
+Proof.
+  intros H. destruct (wf_comp_inv _ _ _ H) as (Hv & _). unfold dec_compound_tree.
+  rewrite enc_compound_flat by auto. rewrite wf_dec by auto. cbn [obind].
+  apply (proj1 dec_tree_mut); auto. pose proof (depth_le (CComp v s fs)). lia.
+Qed.
+
 (* ---- the examples are well-formed; the shapes excluded beyond the leaf classes really fail ---- *)
 
 Lemma tree_examples_wf :
